@@ -9,6 +9,7 @@ import (
 	"go/types"
 	"net/http"
 	"net/textproto"
+	"net/url"
 	"strconv"
 	"strings"
 
@@ -495,3 +496,24 @@ func (e *Exec) observe(label string, v value) {
 }
 
 func (e *Exec) lockEvent(name string, p *value) {}
+
+func init() {
+	intrinsics["(*net/url.URL).EscapedPath"] = func(fr *frame, args []value) value {
+		p := args[0].(*value)
+		if p == nil {
+			panic(rtErr("runtime error: invalid memory address or nil pointer dereference"))
+		}
+		st := (*p).(structure)
+		t := recvElem(fr)
+		path, ok1 := st[fieldIndex(t, "Path")].(string)
+		raw, ok2 := st[fieldIndex(t, "RawPath")].(string)
+		if !ok1 || !ok2 {
+			if g, ok := fr.i.ghost["EscapedPath"]; ok {
+				return g
+			}
+			fr.ex().unsupported("(*url.URL).EscapedPath on a symbolic path (no ghost value set)")
+		}
+		u := url.URL{Path: path, RawPath: raw}
+		return u.EscapedPath()
+	}
+}
